@@ -173,7 +173,9 @@ fn plain_parse(b: &[u8], _n: usize) -> bool {
     }
 }
 
-pub fn all(_tier: Tier) -> Vec<P> {
+pub fn all(tier: Tier) -> Vec<P> {
+    // the file formats start with 16..128-byte headers: strings of <= 4 bytes only reach the "too short" exits
+    let th = tier == Tier::Thorough;
     vec![
         P {
             name: "ZipOffsetBlobStore::load_from_reader",
@@ -183,7 +185,7 @@ pub fn all(_tier: Tier) -> Vec<P> {
                 ZipOffsetBlobStore::load_from_reader(&mut c).is_ok()
             },
             len_arg: false,
-            small: true,
+            small: th,
         },
         P {
             name: "ZipOffsetBlobStore::load_from_file",
@@ -192,8 +194,8 @@ pub fn all(_tier: Tier) -> Vec<P> {
             len_arg: false,
             small: false,
         },
-        P { name: "ZReorderMap::open + iterate", seeds: reorder_seeds, parse: reorder_parse, len_arg: false, small: true },
-        P { name: "MmapVec<u32>::open + get", seeds: mmap_vec_seeds::<u32>, parse: mmap_vec_parse::<u32>, len_arg: false, small: true },
+        P { name: "ZReorderMap::open + iterate", seeds: reorder_seeds, parse: reorder_parse, len_arg: false, small: th },
+        P { name: "MmapVec<u32>::open + get", seeds: mmap_vec_seeds::<u32>, parse: mmap_vec_parse::<u32>, len_arg: false, small: th },
         P { name: "MmapVec<u64>::open + get", seeds: mmap_vec_seeds::<u64>, parse: mmap_vec_parse::<u64>, len_arg: false, small: false },
         P { name: "PlainBlobStore::new(directory with one entry)", seeds: plain_seeds, parse: plain_parse, len_arg: false, small: true },
     ]
